@@ -291,8 +291,151 @@ func (b *bounds) assignedWithin(e ast.Expr, scope ast.Node) bool {
 }
 
 // lenTerms lists terms equal to len(x) (x itself must not be reassigned where the answer is used).
+var iteratorCount = map[string]string{"Variables": "Len", "Methods": "NumMethods", "ExplicitMethods": "NumExplicitMethods", "EmbeddedTypes": "NumEmbeddeds", "Fields": "NumFields", "Terms": "Len", "TypeParams": "Len", "Types": "Len"}
+
+// appendCount: the local slice starts empty and grows by exactly one element per iteration of one loop over a
+// collection: after that loop its length is the size of the collection. Returns the terms of that size.
+func (b *bounds) appendCount(x ast.Expr) []string {
+	id, ok := ast.Unparen(x).(*ast.Ident)
+	if !ok {
+		return nil
+	}
+	v := b.info.ObjectOf(id)
+	as, at := b.assigns[v], b.anodes[v]
+	if len(as) != 2 {
+		return nil
+	}
+	// the initial value: make(T, 0[, c]), nil, or a declaration without value
+	emptyInit := func(e ast.Expr, node ast.Node) bool {
+		if e == nil {
+			_, isSpec := node.(*ast.ValueSpec)
+			return isSpec
+		}
+		if call, ok := ast.Unparen(e).(*ast.CallExpr); ok {
+			if fid, ok := ast.Unparen(call.Fun).(*ast.Ident); ok {
+				if bi, ok := b.info.Uses[fid].(*types.Builtin); ok && bi.Name() == "make" && len(call.Args) >= 2 {
+					c, ok := b.constInt(call.Args[1])
+					return ok && c == 0
+				}
+			}
+		}
+		if nid, ok := ast.Unparen(e).(*ast.Ident); ok {
+			_, isNil := b.info.Uses[nid].(*types.Nil)
+			return isNil
+		}
+		return false
+	}
+	if !emptyInit(as[0], at[0]) || as[1] == nil {
+		return nil
+	}
+	call, ok := ast.Unparen(as[1]).(*ast.CallExpr)
+	if !ok || len(call.Args) != 2 || call.Ellipsis.IsValid() {
+		return nil
+	}
+	fid, ok := ast.Unparen(call.Fun).(*ast.Ident)
+	if !ok {
+		return nil
+	}
+	if bi, ok := b.info.Uses[fid].(*types.Builtin); !ok || bi.Name() != "append" {
+		return nil
+	}
+	if a0, ok := ast.Unparen(call.Args[0]).(*ast.Ident); !ok || b.info.ObjectOf(a0) != v {
+		return nil
+	}
+	appendStmt, ok := at[1].(*ast.AssignStmt)
+	if !ok {
+		return nil
+	}
+	// the loop whose body holds the append as a top-level statement, with nothing that leaves an iteration early
+	var terms []string
+	ast.Inspect(b.fd, func(n ast.Node) bool {
+		var body *ast.BlockStmt
+		var size func() []string
+		switch lp := n.(type) {
+		case *ast.RangeStmt:
+			body = lp.Body
+			size = func() []string {
+				t := b.info.TypeOf(lp.X)
+				if t == nil {
+					return nil
+				}
+				switch t.Underlying().(type) {
+				case *types.Slice, *types.Array, *types.Map:
+					if b.assignedWithin(lp.X, lp.Body) {
+						return nil
+					}
+					return b.lenTerms(lp.X)
+				case *types.Signature:
+					// an iterator of go/types: recv.Variables() has recv.Len() elements
+					if c, ok := ast.Unparen(lp.X).(*ast.CallExpr); ok {
+						if sel, ok := ast.Unparen(c.Fun).(*ast.SelectorExpr); ok {
+							if cnt, ok := iteratorCount[sel.Sel.Name]; ok {
+								if fn, _ := typeutil.Callee(b.info, c).(*types.Func); fn != nil && fn.Pkg() != nil && fn.Pkg().Path() == "go/types" {
+									return []string{b.norm(sel.X) + "." + cnt + "()"}
+								}
+							}
+						}
+					}
+				}
+				return nil
+			}
+		case *ast.ForStmt:
+			body = lp.Body
+			size = func() []string {
+				if lp.Init == nil || lp.Cond == nil || lp.Post == nil {
+					return nil
+				}
+				be, ok := ast.Unparen(lp.Cond).(*ast.BinaryExpr)
+				if !ok || be.Op != token.LSS {
+					return nil
+				}
+				cid, ok := ast.Unparen(be.X).(*ast.Ident)
+				if !ok {
+					return nil
+				}
+				cv := b.info.ObjectOf(cid)
+				iv, has := b.initValue(lp.Init, cv)
+				if !has || b.postStep(lp.Post, cv) != 1 || !b.onlyLoopAssigned(cv, lp) {
+					return nil
+				}
+				if c, ok := b.constInt(iv); !ok || c != 0 {
+					return nil
+				}
+				return b.lenAlternatives(be.Y)
+			}
+		default:
+			return true
+		}
+		top := false
+		for _, st := range body.List {
+			if st == ast.Stmt(appendStmt) {
+				top = true
+			}
+		}
+		if !top {
+			return true
+		}
+		early := false
+		ast.Inspect(body, func(x ast.Node) bool {
+			switch x.(type) {
+			case *ast.FuncLit:
+				return false
+			case *ast.BranchStmt, *ast.ReturnStmt:
+				early = true
+			}
+			return true
+		})
+		if !early {
+			terms = size()
+		}
+		return true
+	})
+	return terms
+}
+
 func (b *bounds) lenTerms(x ast.Expr) []string {
 	out := []string{"len(" + b.norm(x) + ")"}
+	out = append(out, b.appendCount(x)...)
 	if d, ok := b.defExpr(x); ok {
 		if call, ok := ast.Unparen(d).(*ast.CallExpr); ok {
 			if id, ok := ast.Unparen(call.Fun).(*ast.Ident); ok {
@@ -1239,8 +1382,154 @@ func resultLenIsParamLen(prog *load.Program, fn *types.Func, i int) bool {
 	return ok && !bad
 }
 
+// nonNeg: the integer expression is never negative: constants, lengths, min/sum of such, and parameters of
+// unexported functions that every call site fills with such a value (assuming the same of the callers'
+// own parameters: the claim holds by induction over the call depth).
+func (b *bounds) nonNeg(e ast.Expr, depth int) bool {
+	if depth > 6 {
+		return false
+	}
+	if c, ok := b.constInt(e); ok {
+		return c >= 0
+	}
+	e = b.unfold(e)
+	switch x := e.(type) {
+	case *ast.CallExpr:
+		if id, ok := ast.Unparen(x.Fun).(*ast.Ident); ok {
+			if bi, ok := b.info.Uses[id].(*types.Builtin); ok {
+				switch bi.Name() {
+				case "len", "cap":
+					return true
+				case "min":
+					for _, a := range x.Args {
+						if !b.nonNeg(a, depth+1) {
+							return false
+						}
+					}
+					return true
+				case "max":
+					for _, a := range x.Args {
+						if b.nonNeg(a, depth+1) {
+							return true
+						}
+					}
+					return false
+				}
+			}
+		}
+		if fn, ok := typeutil.Callee(b.info, x).(*types.Func); ok && b.prog.IsMoqPkg(fn.Pkg()) && isMinFunc(b.prog, fn) {
+			return b.nonNeg(x.Args[0], depth+1) && b.nonNeg(x.Args[1], depth+1)
+		}
+		if fn, ok := typeutil.Callee(b.info, x).(*types.Func); ok && fn.FullName() == "strings.Count" {
+			return true
+		}
+	case *ast.BinaryExpr:
+		if x.Op == token.ADD || x.Op == token.MUL {
+			return b.nonNeg(x.X, depth+1) && b.nonNeg(x.Y, depth+1)
+		}
+	case *ast.Ident:
+		v, _ := b.info.ObjectOf(x).(*types.Var)
+		if v == nil || len(b.assigns[v]) != 0 || b.fd.Type.Params == nil {
+			return false
+		}
+		pi, k := -1, 0
+		for _, fl := range b.fd.Type.Params.List {
+			for _, nm := range fl.Names {
+				if b.info.Defs[nm] == v {
+					pi = k
+				}
+				k++
+			}
+		}
+		self, _ := b.info.Defs[b.fd.Name].(*types.Func)
+		if pi < 0 || self == nil || self.Exported() {
+			return false
+		}
+		key := nonNegKey{self, pi}
+		if st, seen := nonNegMemo[key]; seen {
+			return st // in progress counts as true: induction hypothesis
+		}
+		nonNegMemo[key] = true
+		calls := staticCallsOf(b.prog, self)
+		ok := len(calls) > 0
+		for _, cs := range calls {
+			if pi >= len(cs.call.Args) {
+				ok = false
+				break
+			}
+			cb := newBounds(b.prog, cs.info, cs.fd)
+			if !cb.nonNeg(cs.call.Args[pi], depth+1) {
+				ok = false
+				break
+			}
+		}
+		nonNegMemo[key] = ok
+		return ok
+	}
+	return false
+}
+
+type nonNegKey struct {
+	fn *types.Func
+	pi int
+}
+
+var nonNegMemo = map[nonNegKey]bool{}
+
+// tailSlice: x[len(x)-n:] with 0 <= n <= len(x).
+func (b *bounds) tailSlice(x *ast.SliceExpr) (bool, string) {
+	if x.High != nil || x.Slice3 || x.Low == nil {
+		return false, ""
+	}
+	be, ok := ast.Unparen(x.Low).(*ast.BinaryExpr)
+	if !ok || be.Op != token.SUB {
+		return false, ""
+	}
+	lx, ok := b.lenOperand(be.X)
+	if !ok || b.norm(lx) != b.norm(x.X) {
+		return false, ""
+	}
+	// n <= len(x): n is min(len(x), _) ; n >= 0
+	upper := false
+	for _, t := range b.upperTermsIncl(be.Y) {
+		if t == "len("+b.norm(x.X)+")" {
+			upper = true
+		}
+	}
+	if upper && b.nonNeg(be.Y, 0) {
+		return true, "the slice starts at len(x)-n with 0 <= n <= len(x): n is a minimum that includes len(x) and is never negative"
+	}
+	return false, ""
+}
+
+// upperTermsIncl: terms T with e <= T (inclusive): e itself and, for a minimum, its operands.
+func (b *bounds) upperTermsIncl(e ast.Expr) []string {
+	out := []string{b.norm(e)}
+	u := b.unfold(e)
+	if call, ok := u.(*ast.CallExpr); ok {
+		isMin := false
+		if id, ok := ast.Unparen(call.Fun).(*ast.Ident); ok {
+			if bi, ok := b.info.Uses[id].(*types.Builtin); ok && bi.Name() == "min" {
+				isMin = true
+			}
+		}
+		if fn, ok := typeutil.Callee(b.info, call).(*types.Func); ok && b.prog.IsMoqPkg(fn.Pkg()) && isMinFunc(b.prog, fn) {
+			isMin = true
+		}
+		if isMin {
+			for _, a := range call.Args {
+				out = append(out, b.upperTermsIncl(a)...)
+			}
+		}
+	}
+	return out
+}
+
 // sliceMore: further discharges for slice expressions.
 func (b *bounds) sliceMore(f *cfgx.Func, x *ast.SliceExpr) (bool, string) {
+	if ok, why := b.tailSlice(x); ok {
+		return true, why
+	}
 	need := int64(0)
 	constBounds := true
 	for _, bd := range []ast.Expr{x.Low, x.High} {
